@@ -228,13 +228,15 @@ func H_C05_main() {
 		texts = []string{"cat"} // matches nothing
 	}
 	var filters []Filter
-	switch vChoose("filter", 4) {
+	switch vChoose("filter", 5) {
 	case 1:
 		filters = []Filter{Eq("c", "x")}
 	case 2:
 		filters = []Filter{Eq("c", "zz")}
 	case 3:
 		filters = []Filter{Gte("n", vI64("c"))}
+	case 4:
+		filters = []Filter{Eq("c", "y")} // matches only document 9, which has no vector
 	}
 	if q == nil && len(texts) == 0 && len(filters) == 0 {
 		_, err := h.NewSearch().WithK(3).Execute()
